@@ -123,7 +123,7 @@ func (h *Handler) delete(lease *Lease) {
 
 // allocIPOffer allocates a free IP to the lease entry
 func (h *Handler) allocIPOffer(lease *Lease, reqIP netip.Addr) error {
-	if reqIP.Is4() {
+	if reqIP.Is4() && !reqIP.Less(lease.subnet.FirstIP) && reqIP.Less(lease.subnet.broadcast) {
 		if l := h.findByIP(reqIP); l == nil || l.State == StateFree || bytes.Equal(l.ClientID, lease.ClientID) {
 			if h.session.FindIP(reqIP) == nil {
 				lease.IPOffer = reqIP
